@@ -16,7 +16,7 @@
    start/end normalised before clamping), F13 (MovingWindow.at: gap slots give NaN, the
    index must lie in the covered range) and count_covered (exact timedelta division). *)
 From Verif Require Export model.Common.
-From Verif Require Import gen.RingBuffer.   (* T-tie: rb_wrap is OrderedRingBuffer.wrap as /repo has it now *)
+From Verif Require Import gen.RingBuffer.   (* T-tie: rb_wrap, rb_normalize_timestamp, gap_contains as /repo has them now *)
 
 Definition cell := option Z.
 Definition gap := (Z * Z)%type.            (* Gap(start, end): start inclusive, end exclusive *)
@@ -27,13 +27,9 @@ Definition td_half (p : Z) : Z :=
   let q := p / 2 in
   if p mod 2 =? 0 then q else if q mod 2 =? 0 then q else q + 1.
 
-(* num_samples, remainder = divmod(t - align, period); round to the closer slot, to the even
-   one at equal distance *)
-Definition norm_slot (p a t : Z) : Z :=
-  let n := (t - a) / p in
-  let r := (t - a) mod p in
-  if negb (r =? 0) && (((td_half p =? r) && negb (n mod 2 =? 0)) || (td_half p <? r))
-  then n + 1 else n.
+(* the slot NUMBER of normalize_timestamp(t): rb_normalize_timestamp is the method as translated
+   from /repo (T-tie); its result is the datetime align + n * period *)
+Definition norm_slot (p a t : Z) : Z := (rb_normalize_timestamp t a p (td_half p) - a) / p.
 
 Definition ts_of (p a k : Z) : Z := a + k * p.
 
@@ -58,7 +54,7 @@ Fixpoint set_nth {A} (n : nat) (x : A) (l : list A) : list A :=
 Definition get_cell (cs : list cell) (i : Z) : cell := nth (Z.to_nat i) cs None.
 
 (* Gap.contains / is_missing *)
-Definition contains (g : gap) (k : Z) : bool := (fst g <=? k) && (k <? snd g).
+Definition contains (g : gap) (k : Z) : bool := gap_contains k (fst g) (snd g).   (* T-tie: Gap.contains *)
 Definition is_missing (gs : list gap) (k : Z) : bool := existsb (fun g => contains g k) gs.
 
 (* ---------------------------------------------------------------- _remove_gap *)
